@@ -1,0 +1,65 @@
+//go:build verif
+
+package actor
+
+// Contracts for property C37, receiving side of a relocation / remote spawn: every
+// piece of configuration the wire record carries is turned into its spawn option,
+// unconditionally of the other pieces - stashing when the record says so (whatever
+// the reentrancy mode), the role, the reentrancy policy decoded from the record's
+// own sub-message, the supervisor, the init timeout, the passivation strategy - and
+// the options returned are exactly the ones built.
+
+//@ property C37
+
+//@ ghost local wo_n int
+//@ ghost local wo_stash bool
+//@ ghost local wo_role bool
+//@ ghost local wo_re bool
+//@ ghost local wo_sup bool
+//@ ghost local wo_init bool
+//@ ghost local wo_pass bool
+//@ ghost local wo_re_dec *reentrancy.Reentrancy
+//@ ghost local wo_sup_dec *supervisor.Supervisor
+//@ ghost local wo_pass_dec passivation.Strategy
+
+//@ func (*actorSystem).wireSpawnOptions(x, props)
+//@   bounds off
+//@   requires props != nil
+//@   ghost entry wo_n = 0
+//@   ghost entry wo_stash = false
+//@   ghost entry wo_role = false
+//@   ghost entry wo_re = false
+//@   ghost entry wo_sup = false
+//@   ghost entry wo_init = false
+//@   ghost entry wo_pass = false
+//@   at call 1 of DecodePassivationStrategy assert decodes-the-records-own-strategy: arg0 == props.PassivationStrategy
+//@   at call 1 of DecodePassivationStrategy ghost wo_pass_dec = result
+//@   at call 1 of WithPassivationStrategy assert arg0 == wo_pass_dec
+//@   at call 1 of WithPassivationStrategy ghost wo_pass = true
+//@   at call 1 of WithPassivationStrategy ghost wo_n = wo_n + 1
+//@   at call 1 of WithInitTimeout ghost wo_init = true
+//@   at call 1 of WithInitTimeout ghost wo_n = wo_n + 1
+//@   at call 1 of WithStashing ghost wo_stash = true
+//@   at call 1 of WithStashing ghost wo_n = wo_n + 1
+//@   at call 1 of WithRole assert carries-the-records-role: props.Role != nil && arg0 == *props.Role
+//@   at call 1 of WithRole ghost wo_role = true
+//@   at call 1 of WithRole ghost wo_n = wo_n + 1
+//@   at call 1 of DecodeReentrancy assert decodes-the-records-own-policy: arg0 == props.Reentrancy
+//@   at call 1 of DecodeReentrancy ghost wo_re_dec = result
+//@   at call 1 of WithReentrancy assert arg0 == wo_re_dec
+//@   at call 1 of WithReentrancy ghost wo_re = true
+//@   at call 1 of WithReentrancy ghost wo_n = wo_n + 1
+//@   at call 1 of DecodeSupervisor assert decodes-the-records-own-supervisor: arg0 == props.Supervisor
+//@   at call 1 of DecodeSupervisor ghost wo_sup_dec = result
+//@   at call 1 of WithSupervisor assert arg0 == wo_sup_dec
+//@   at call 1 of WithSupervisor ghost wo_sup = true
+//@   at call 1 of WithSupervisor ghost wo_n = wo_n + 1
+//@   at call 1 of WithDependencies ghost wo_n = wo_n + 1
+//@   at call 1 of reliableSpawnOptionFromWire ghost wo_n = wo_n + ite(result1 == nil, 1, 0)
+//@   ensures passivation-always-restored: result1 == nil ==> wo_pass
+//@   ensures stashing-restored-exactly-when-recorded: result1 == nil ==> wo_stash == props.EnableStash
+//@   ensures role-restored-when-recorded: result1 == nil && props.Role != nil && *props.Role != "" ==> wo_role
+//@   ensures reentrancy-restored-when-recorded: result1 == nil && props.Reentrancy != nil ==> wo_re
+//@   ensures supervisor-restored-when-recorded: result1 == nil && props.Supervisor != nil && wo_sup_dec != nil ==> wo_sup
+//@   ensures init-timeout-restored-when-recorded: result1 == nil && props.InitTimeout != nil ==> wo_init
+//@   ensures returns-every-option-built: result1 == nil ==> len(result0) == wo_n
